@@ -219,7 +219,9 @@ def directH (P : Params V) (T : Tables) (hw : HWorld V) (w : World V) : Op → W
   | .cmut cid meth =>
     if hw.blk (.contour cid) && attached w (.contour cid) && (AL.get? contourMutators meth).isSome then
       (directNames "Contour" meth).foldl (fun w nm =>
-        (getOne P T (setCache w (.contour cid) ((cacheOf w (.contour cid)).destroyName nm)) (.contour cid) nm none).1) w
+        if (facsOf T w.regs "Contour").any (fun p => p.1 = nm) && !acceptsKw nm then
+          (getOne P T (setCache w (.contour cid) ((cacheOf w (.contour cid)).destroyName nm)) (.contour cid) nm none).1
+        else w) w
     else w
   | _ => w
 
@@ -285,7 +287,7 @@ def hstep (P : Params V) (T : Tables) (hw : HWorld V) (hop : HOp) : HWorld V × 
     else
       match op with
       | .cmove cid dx dy => doCmoveH P T hw cid dx dy
-      | .register _ _ | .get _ _ _ | .has _ _ _ | .keys _ | .destroy _ _ _ | .destroyAll _ =>
+      | .get _ _ _ | .has _ _ _ | .keys _ | .destroy _ _ _ | .destroyAll _ =>
         let r := step P T hw.w op
         ({ hw with w := r.1 }, r.2)
       | _ => (hw, .err "held")
